@@ -69,7 +69,7 @@ def inputs(ctx):
     for ci, P in enumerate(grid):
         specs = all_specs(P, rng)
         for si, spec in enumerate(rng.sample(specs, min(len(specs), 6 if ctx.quick else 12))):
-            items.append(("grid%d-%d" % (ci, si), P.tolist(), spec))
+            items.append(("grid%d-%d" % (ci, si), P.tolist(), simpl.maybe_int(rng, P, spec)))
     rnd = [curves.random_curve(rng, 3, 60 if ctx.quick else 200) for _ in range(150 if ctx.quick else 1500)]
     rnd += curves.trace_windows(rng, 8 if ctx.quick else 60, 20, 120, names=("web0_reduced.csv", "usr0.csv", "web2.csv"))
     if not ctx.quick:
@@ -77,7 +77,21 @@ def inputs(ctx):
     for ci, P in enumerate(rnd):
         specs = all_specs(P, rng)
         for si, spec in enumerate(rng.sample(specs, min(len(specs), 6))):
-            items.append(("rnd%d-%d" % (ci, si), P.tolist(), spec))
+            items.append(("rnd%d-%d" % (ci, si), P.tolist(), simpl.maybe_int(rng, P, spec)))
+    # long curves (size-dependent code paths), a few calls each
+    for li, n in enumerate([1200, 3000] if ctx.quick else [1200, 3000, 6000, 10000]):
+        x = np.arange(1, n + 1, dtype=float)
+        y = 100.0 / np.sqrt(x) * np.array([1.0 + 0.02 * rng.random() for _ in range(n)])
+        P = curves.mk(x, y)
+        for f in ("rdp", "grdp", "rdp_fixed", "mp_grdp", "min_point_rdp"):
+            spec = simpl.random_spec(rng, P, f)
+            if f in ("rdp", "grdp", "mp_grdp"):
+                spec["t"] = rng.choice([0.05, 0.01]) if spec.get("cost") != "r2" else 0.95
+            if "length" in spec:
+                spec["length"] = rng.randint(5, 60)
+            if "min_points" in spec:
+                spec["min_points"] = rng.randint(5, 60)
+            items.append(("long%d-%s" % (li, f), P.tolist(), spec))
     return items
 
 
